@@ -123,6 +123,13 @@ CLAIMS["C01"] = (
     "DESIGN.md §3 C01",
 )
 
+CLAIMS["C15"] = (
+    "registry reader (266-row built-in function table) with a name-normalisation rule and frozen alias table; static reachability from verb constructors / verb files to functions and shared library routines, through dispatch tables; abstract kind evaluation of wrapper vs wrapped function (guard-domain comparison); callee identification for digests, math routines and regex compilation",
+    "Decides only registry and wrapper agreement — that the name a user types reaches the implementation of that name: every function-table slot holds the function whose normalised name is the entry's name (operators and eight renames frozen), no implementation is shared except documented synonyms; sub/gsub/ssub, clean-whitespace, sec2gmtdate verbs reach exactly their own function, sec2gmt / utf8-to-latin1 / latin1-to-utf8 / format-values share the function's library routine, the sub-family wrappers' kind guard is not narrower than the function's domain, the case verb uses the same case mapper as toupper/tolower (known finding: it does not); digest functions call the crypto package of their own name and hex-encode the whole sum; math functions pass the math routine of their own name through the right vector; run-time regexes are compiled through the one entry point that implements the \"...\"i form. It decides nothing value-level: character counting, index bounds, regex/capture results, printf rendering, inverse pairs (both seeded changes for C15 are value-level and are not caught).",
+    "Trusts go/ssa, the naming convention BIF_<name>[_arity] (a renamed function needs a line in the alias table), and the kind evaluator of checker/kindeval.go. Thin claim, stated as such.",
+    "DESIGN.md §3 C15",
+)
+
 NOT_APPLICABLE = {
     "C13": "Join pairing, ordering and unpaired accounting are relational identities over run-time key values and bucket contents; no clause is a shape fact visible to static analysis (the shared protocol facts are reported under C04/C10/C17).",
 }
